@@ -37,8 +37,11 @@ func c14Explore(src *choice.Src) *core.Result {
 	w.Backend = rb
 
 	// scheduler shape
-	r.s.SwitchNum = []int{1, 1, 1, 1}[src.Intn(4)]
-	r.s.SwitchDen = []int{1, 2, 4, 16}[src.Intn(4)]
+	pct := src.Intn(6) // 4, 5: priority scheduling of depth 2, 3 instead of random switching
+	r.s.SetShape(src.Intn(4))
+	if pct >= 4 {
+		r.s.SetShape(pct)
+	}
 	height := src.Weighted(3, 3, 2, 1, 1, 1, 1, 2) + 1
 
 	// module universe of this run: a handful of modules so that keys collide
@@ -178,8 +181,7 @@ func c14Explore(src *choice.Src) *core.Result {
 		steps1, digest1 := res.Steps, res.Digest
 		r.s = sched.New(src)
 		w.StepFn = r.s.Steps
-		r.s.SwitchNum = 1
-		r.s.SwitchDen = []int{1, 2, 4, 16}[src.Intn(4)]
+		r.s.SetShape(src.Intn(6))
 		seenReq := map[string]bool{}
 		var all []lookupReq
 		for _, spec := range r.specs {
